@@ -359,6 +359,13 @@ class TheJoker:
             else:
                 ln_prior = return_logprobs
 
+            if max_prior_samples is not None:
+                # never process more than max_prior_samples samples, like the
+                # cached path
+                prior_samples = prior_samples[:max_prior_samples]
+                if ln_prior is not None and not isinstance(ln_prior, bool):
+                    ln_prior = ln_prior[:max_prior_samples]
+
             samples = iterative_rejection_inmem(
                 joker_helper,
                 prior_samples,
